@@ -25,7 +25,7 @@ for name in sorted(os.listdir(os.path.join(VERIF, "benign"))):
     st["quiet_now"] += 0 if now else 1
     note = ""
     if m.get("judgement"):
-        note = "true alarm of another property, see meta.json"
+        note = m.get("judgement_short", "true alarm of another property, see meta.json")
     elif first and not now:
         fc = m.get("first_checks", {})
         sigs = [s for v in fc.values() for s in v.get("signatures", [])] + [i[:60] for v in fc.values() for i in v.get("infra", [])]
